@@ -120,8 +120,8 @@ def check_c01(tier, seed):
     v = Verdict("C01", tier, seed)
     st = new_stage()
     merged = Merged()
-    builds = ["shipped", "w32", "be0", "ua0"]
-    libs = run_parallel([lambda n=n: mkbuild(n).build(st, jobs=4) for n in builds], workers=4)
+    builds = ["shipped", "w32", "be0", "ua0", "clang"]
+    libs = run_parallel([lambda n=n: mkbuild(n).build(st, jobs=4) for n in builds], workers=5)
     per = {}
     for lib in libs:
         m = run_dp(st, lib, ["h_dp.c"], "c01", tier, seed, merged, v)
@@ -142,8 +142,8 @@ def check_c02(tier, seed):
     v = Verdict("C02", tier, seed)
     st = new_stage()
     merged = Merged()
-    builds = ["shipped", "w32", "be0", "ua0"]
-    libs = run_parallel([lambda n=n: mkbuild(n).build(st, jobs=4) for n in builds], workers=4)
+    builds = ["shipped", "w32", "be0", "ua0", "clang"]
+    libs = run_parallel([lambda n=n: mkbuild(n).build(st, jobs=4) for n in builds], workers=5)
     per = {}
     for lib in libs:
         m = run_dp(st, lib, ["h_dp.c"], "c02", tier, seed, merged, v)
@@ -181,7 +181,7 @@ def check_c03(tier, seed):
     v = Verdict("C03", tier, seed)
     st = new_stage()
     merged = Merged()
-    libs = run_parallel([lambda n=n: mkbuild(n).build(st, jobs=5) for n in ("shipped", "w32", "be0", "ua0")], workers=4)
+    libs = run_parallel([lambda n=n: mkbuild(n).build(st, jobs=5) for n in ("shipped", "w32", "be0", "ua0", "clang")], workers=5)
     lib = libs[0]
     m1 = run_dp(st, lib, ["h_dp.c"], "c03", tier, seed, merged, v)
     m2 = run_mc(st, lib, "h_par.c", "c03p", tier, seed, merged, v, nshards=NCPU)
@@ -213,6 +213,10 @@ def check_c04(tier, seed):
     d1 = run_dp(st, lib, ["h_dp.c"], "c04", tier, seed, merged, v)
     d2 = run_dp(st, libw, ["h_dp.c"], "c04", tier, seed, merged, v)
     d3 = run_dp(st, libb, ["h_dp.c"], "c04", tier, seed, merged, v, nshards=8)     # byte-order-neutral arms of the tweak code
+    others = run_parallel([lambda n=n: mkbuild(n).build(st, jobs=8) for n in ("ua0", "clang")], workers=2)
+    for lo in others:   # no unaligned access / the other compiler: the families and the quick closure
+        dx = run_dp(st, lo, ["h_dp.c"], "c04", tier, seed, merged, v, nshards=8); d3.evaluations += dx.evaluations
+        mx = run_mc(st, lo, "h_sched.c", "c04", "quick", seed, merged, v, nshards=7); mc.evaluations += mx.evaluations
     mcb = run_mc(st, libb, "h_sched.c", "c04", "quick", seed, merged, v, nshards=4)  # the (non-CTR) closure on that build, quick alphabet
     d2.evaluations += d3.evaluations; mc.evaluations += mcb.evaluations
     closed = all(val == 0 for k, val in merged.notes.items() if k.startswith("kinds_cut_by_depth_cap"))
@@ -221,7 +225,7 @@ def check_c04(tier, seed):
                  "set_tweak over TWEAKS(B) = Z,F,R1,R2, R1 at every length 1..B-1, NULL at lengths 1 and B (thorough: every byte value at every position), invalid sizes}; "
                  "every reachable state x every alphabet element executed; oracle on every transition: defined schedule image == fresh set_tweaked_key + one set_tweak(last), "
                  "round count as specified, encrypt/decrypt of a block family == specification cipher with TK1 = zero-padded last tweak and the tweak-domain constant",
-                 {"builds": [lib.describe(), libw.describe(), libb.describe()], "oracle_block_evaluations": mc.evaluations,
+                 {"builds": [lib.describe(), libw.describe(), libb.describe()] + [b.describe() for b in others], "oracle_block_evaluations": mc.evaluations,
                   "fresh_schedule_family_evaluations": d1.evaluations + d2.evaluations,
                   "fresh_schedule_rule": "BG/BYTE/PAIR/BIT families over tweak||key||block for the four tweakable variants x {encrypt, decrypt} x {set_tweak, fresh schedule} against the specification model, on the 64-bit-word, 32-bit-word and byte-order-neutral builds (the closure also runs on the last one with the quick alphabet)",
                   "evaluations": merged.evaluations + merged.transitions, "distinct_nontrivial": merged.distinct})
@@ -235,8 +239,8 @@ def check_c05(tier, seed):
     merged = Merged()
     # the platform switches select different code in the CTR back ends (word size: vector S-box code; unaligned access:
     # the byte-wise load / write-back arms; byte order: the scalar arms), so the same exploration runs in each build
-    names = ["shipped", "w32", "ua0", "be0"] + (["w32ua0"] if tier == "thorough" else [])
-    libs = run_parallel([lambda n=n: mkbuild(n).build(st, jobs=4) for n in names], workers=4)
+    names = ["shipped", "w32", "ua0", "be0", "clang"] + (["w32ua0"] if tier == "thorough" else [])
+    libs = run_parallel([lambda n=n: mkbuild(n).build(st, jobs=4) for n in names], workers=5)
     lib = libs[0]
     for lb in libs:
         run_mc(st, lb, "h_ctr.c", "c05", tier, seed, merged, v, nshards=26)
@@ -262,7 +266,7 @@ def check_c06(tier, seed):
     lib = mkbuild("shipped").build(st)
     run_mc(st, lib, "h_ctr.c", "c06", tier, seed, merged, v, nshards=26)
     mp = run_mc(st, lib, "h_par.c", "c06p", tier, seed, merged, v, nshards=NCPU)
-    others = run_parallel([lambda n=n: mkbuild(n).build(st, jobs=8) for n in ("w32", "ua0")], workers=2)
+    others = run_parallel([lambda n=n: mkbuild(n).build(st, jobs=5) for n in ("w32", "ua0", "clang")], workers=3)
     for lw in others:   # other word size / no unaligned access: other code in the vector back ends' load, store and S-box arms
         run_mc(st, lw, "h_ctr.c", "c06", tier, seed, merged, v, nshards=26)
         run_mc(st, lw, "h_par.c", "c06p", tier, seed, merged, v, nshards=NCPU)
@@ -300,9 +304,9 @@ def check_c07(tier, seed):
     v = Verdict("C07", tier, seed)
     st = new_stage()
     merged = Merged()
-    libs = run_parallel([lambda n=n: mkbuild(n).build(st, jobs=5) for n in ("shipped", "w32", "ua0")], workers=3)
+    libs = run_parallel([lambda n=n: mkbuild(n).build(st, jobs=5) for n in ("shipped", "w32", "ua0", "clang")], workers=4)
     lib = libs[0]
-    for l in libs:      # the 32-bit-word build compiles different vector S-box code (sbox_two) in the 128-bit back end; without unaligned access the byte-wise load / store arms
+    for l in libs:      # (clang: code selected by compiler macros) the 32-bit-word build compiles different vector S-box code (sbox_two) in the 128-bit back end; without unaligned access the byte-wise load / store arms
         run_mc(st, l, "h_par.c", "c07", tier, seed, merged, v, nshards=NCPU)
     huge = run_huge(st, lib, "par", tier, seed, merged, v).evaluations if tier == "thorough" else 0
     cov = {"evaluations": merged.evaluations, "distinct_nontrivial": merged.distinct,
@@ -557,13 +561,16 @@ def check_c13(tier, seed):
                          lambda: mkbuild("cpumodel-no256", defs=["-DSKINNY_C_VERIF_CPUID", "-DSKINNY_C_VERIF_VEC256_MATH=0"], maxbe=1).build(st, jobs=5),
                          lambda: mkbuild("no256", defs=["-DSKINNY_C_VERIF_VEC256_MATH=0"], maxbe=1).build(st, jobs=5),
                          lambda: mkbuild("nosimd").build(st, jobs=5),
-                         lambda: mkbuild("cpumodel-nosimd", defs=["-DSKINNY_C_VERIF_CPUID", "-DSKINNY_C_VERIF_VEC128_MATH=0", "-DSKINNY_C_VERIF_VEC256_MATH=0"], maxbe=0).build(st, jobs=5)], workers=6)
+                         # the 128-bit back ends compiled out, the 256-bit ones in: Skinny-128 still has its widest back end to select
+                         lambda: mkbuild("no128", defs=["-DSKINNY_C_VERIF_VEC128_MATH=0"], maxbe=2).build(st, jobs=5),
+                         lambda: mkbuild("cpumodel-no128", defs=["-DSKINNY_C_VERIF_CPUID", "-DSKINNY_C_VERIF_VEC128_MATH=0"], maxbe=2).build(st, jobs=5),
+                         lambda: mkbuild("cpumodel-nosimd", defs=["-DSKINNY_C_VERIF_CPUID", "-DSKINNY_C_VERIF_VEC128_MATH=0", "-DSKINNY_C_VERIF_VEC256_MATH=0"], maxbe=0).build(st, jobs=5)], workers=8)
     srcs = ["common.c", "pin.c", "families.c", "alloc.c", "obj.c", "h_cpu.c", "tramp.S"]
     per = {}
     for lib in libs:
         model = lib.name.startswith("cpumodel")
         binary = build_harness(st, lib, "cpu", srcs, wraps=WRAP_ALLOC, ref=False, defs=["-DMODEL"] if model else [])
-        args = ["--tier", tier, "--seed", str(seed), "--label", lib.name, "--maxbe", str(lib.maxbe)]
+        args = ["--tier", tier, "--seed", str(seed), "--label", lib.name, "--maxbe", str(lib.maxbe)] + (["--sub", "no128"] if lib.name.endswith("no128") else [])
         spec = {"sources": srcs, "special": "c13", "build": lib.name, "args": args}
         m = Merged()
         for res in run_sharded(binary, args, st, "cpu-" + lib.name, nshards=8 if model else 1):
@@ -826,8 +833,10 @@ def check_c15(tier, seed):
     v = Verdict("C15", tier, seed)
     st = new_stage()
     merged = Merged()
-    lib = mkbuild("shipped").build(st)
-    run_mc(st, lib, "h_life.c", "c15", tier, seed, merged, v, nshards=14)
+    libs = run_parallel([lambda n=n: mkbuild(n).build(st, jobs=5) for n in ("shipped", "w32", "ua0", "be0")], workers=4)
+    lib = libs[0]
+    for lb in libs:   # the life-cycle code has platform arms of its own (wiping, context layout), and be0 is a build without vector back ends
+        run_mc(st, lb, "h_life.c", "c15", tier if lb is lib else "quick", seed, merged, v, nshards=14)
     depth = 9 if tier == "thorough" else 6
     cov = mc_cov(merged,
                  "BFS over {init, set_key, set_tweaked_key, set_tweak, set_counter, use, swap_modes, cleanup} x two objects of each kind (3 CTR, 3 parallel) on each back end, "
@@ -835,7 +844,7 @@ def check_c15(tier, seed):
                  "allocator ledger summary); oracle on every transition: allocator ledger (every init allocates, cleanup frees exactly the object's blocks once with the pointer the "
                  "allocator returned, cleanup of zeroed/cleaned-up objects makes no allocator call, live blocks == blocks owned by live objects), ctx/vtable cleared, calls on dead "
                  "objects return 0 (freed pages are PROT_NONE, so touching them faults), re-initialised context == first initialisation" % depth,
-                 {"builds": [lib.describe()], "depth_bound": depth})
+                 {"builds": [b.describe() for b in libs], "depth_bound": depth, "depth_bound_other_builds": 6})
     return v.finish("model_checking", cov, ["histories longer than the depth bound are not explored (the state space is not closed: each re-initialisation takes a fresh allocator slot)",
                                             "allocation through calloc/malloc/realloc/posix_memalign/aligned_alloc/memalign/free only"], exhaustive=True)
 
@@ -844,14 +853,16 @@ def check_c16(tier, seed):
     v = Verdict("C16", tier, seed)
     st = new_stage()
     merged = Merged()
-    lib = mkbuild("shipped").build(st)
-    run_mc(st, lib, "h_life.c", "c16", tier, seed, merged, v, nshards=14)
+    libs = run_parallel([lambda n=n: mkbuild(n).build(st, jobs=5) for n in ("shipped", "w32", "be0")], workers=3)
+    lib = libs[0]
+    for lb in libs:
+        run_mc(st, lb, "h_life.c", "c16", tier, seed, merged, v, nshards=14)
     cov = {"evaluations": merged.evaluations, "distinct_nontrivial": merged.distinct,
            "rule": "for each of the six init functions x each back end x prior content of the caller's object {zeros, 0xFF, 0xA5, byte copy of a live object, byte copy of a "
                    "cleaned-up object} x each allocation request of the init (measured: one per init): the request fails, then every sequence of up to three of {cleanup, set_key, "
                    "set_counter, use, swap_modes, cleanup} is applied, then a normal init/use/cleanup; oracle: init returns 0, no block left live, no later call returns non-zero, "
                    "faults or frees a block it does not own (a live neighbour object's block and image are watched), object reusable; distinct = distinct fault scenarios",
-           "samples": merged.samples, "builds": [lib.describe()]}
+           "samples": merged.samples, "builds": [b.describe() for b in libs]}
     return v.finish("fault_enumeration", cov, ["faults are injected at the libc allocation boundary (link-time wrap); one allocation request per init was observed on every back end"])
 
 
@@ -859,12 +870,12 @@ def check_c17(tier, seed):
     v = Verdict("C17", tier, seed)
     st = new_stage()
     merged = Merged()
-    libs = run_parallel([lambda n=n: mkbuild(n, **({"common": "-O3 -Wall -Wextra"} if n == "clang" else {})).build(st, jobs=8) for n in ("shipped", "clang")], workers=2)
+    libs = run_parallel([lambda n=n: mkbuild(n, **({"common": "-O3 -Wall -Wextra"} if n == "clang" else {})).build(st, jobs=8) for n in ("shipped", "clang", "w32", "ua0", "be0")], workers=5)
     for lib in libs:
         run_mc(st, lib, "h_life.c", "c17", tier, seed, merged, v, nshards=14)
     cov = mc_cov(merged,
                  "BFS (depth <= 8) over {init, set_key, set_tweaked_key, set_tweak, set_counter, use(5 bytes), use(batch+3 bytes), swap_modes, cleanup} on one object of each kind and "
-                 "back end, on the shipped gcc -O3 build and a clang -O3 build (dead-store elimination of the wipe would show here); oracle at every cleanup transition: every byte of "
+                 "back end, on the shipped gcc -O3 build, a clang -O3 build (dead-store elimination of the wipe would show here) and the 32-bit-word, no-unaligned-access and byte-order-neutral builds (the wiping code's platform arms); oracle at every cleanup transition: every byte of "
                  "each block is zero at the moment it reaches free(), whole allocation including alignment slack; non-trivial = more than 8 non-zero bytes before cleanup",
                  {"builds": [l.describe() for l in libs], "cleanup_transitions_checked": merged.evaluations, "distinct_nontrivial": max(merged.distinct, 2)})
     return v.finish("model_checking", cov, ["memory handed to free() is inspected at the wrap seam; copies the library might keep elsewhere (stack, registers) are not"], exhaustive=True)
@@ -987,9 +998,9 @@ def check_c18(tier, seed):
     vplib.sh(["clang"] + cov_flags.split() + ["-c", os.path.join(VERIF, "harness", "ctl_race.c"), "-o", ctl])
     runs = []
     # unpinned: the library's own CPU probes run inside the threads
-    b0 = build_harness(st, lib, "thr-unpinned", ["common.c", "pin.c", "families.c", "h_thr.c"], wraps=["calloc", "free", "memcpy", "memmove", "memset"], extra_ld=[ctl])
+    b0 = build_harness(st, lib, "thr-unpinned", ["common.c", "pin.c", "families.c", "h_thr.c"], wraps=["calloc", "free", "memcpy", "memmove", "memset", "signal", "sigaction"], extra_ld=[ctl])
     runs.append((b0, "unpinned", 2))
-    b1 = build_harness(st, lib, "thr-pinned", ["common.c", "pin.c", "families.c", "h_thr.c"], wraps=["calloc", "free", "memcpy", "memmove", "memset"] + WRAP_PIN, extra_ld=[ctl], defs=["-DUSE_PIN"])
+    b1 = build_harness(st, lib, "thr-pinned", ["common.c", "pin.c", "families.c", "h_thr.c"], wraps=["calloc", "free", "memcpy", "memmove", "memset", "signal", "sigaction"] + WRAP_PIN, extra_ld=[ctl], defs=["-DUSE_PIN"])
     for be in (0, 1):
         runs.append((b1, "pinned-be%d" % be, be))
     per = {}
@@ -1001,6 +1012,31 @@ def check_c18(tier, seed):
             m.add(res, spec); merged.add(res, spec)
         v.handle(m, make_replayer(binary, args))
         per[label] = m.evaluations
+    # structural part of "no mutable global state": no object of the library as the repository builds it has a writable
+    # data section (.data.rel.ro* holds the const function tables and is read-only once relocated)
+    ship = mkbuild("shipped").build(st)
+    import re as _re
+    secs = {}; cur = None; nsec = 0
+    for line in (vplib.sh(["objdump", "-h", "-w", ship.lib], check=False).stdout or "").splitlines():
+        mh = _re.match(r"^(\S+\.o):\s+file format", line)
+        if mh:
+            cur = mh.group(1); continue
+        ms = _re.match(r"^\s*\d+\s+(\S+)\s+([0-9a-f]{8})\s", line)
+        if cur and ms:
+            nsec += 1
+            name, size = ms.group(1), int(ms.group(2), 16)
+            writable = (name in (".data", ".bss", ".tbss", ".tdata") or name.startswith((".data.", ".bss.", ".tbss.", ".tdata."))) and not name.startswith(".data.rel.ro")
+            if writable and size:
+                secs.setdefault(cur, []).append("%s (%d bytes)" % (name, size))
+    syms = vplib.sh(["nm", "-A", ship.lib], check=False).stdout or ""
+    common = [l for l in syms.splitlines() if _re.search(r"\s[Cc]\s", l)]
+    if nsec < 40 or ".text" not in (vplib.sh(["objdump", "-h", "-w", ship.lib], check=False).stdout or ""):
+        raise EngineError("section audit saw too little (%d sections)" % nsec)
+    for obj, lst in sorted(secs.items()):
+        v.new.append({"sig": "C18/writable-static-data/%s" % obj, "case": "", "label": ship.name, "replay": None,
+                      "detail": "%s (built by src/Makefile) has writable static data: %s - the library has mutable global state" % (obj, ", ".join(lst))})
+    for l in common[:3]:
+        v.new.append({"sig": "C18/writable-static-data/common", "case": "", "label": ship.name, "replay": None, "detail": "common symbol (uninitialised global): " + l})
     # free-running ThreadSanitizer pass over the same operation bodies
     tsan = tsan_pass(st, tier)
     points = sum(val for k, val in merged.notes.items() if k.startswith("scheduling_points_executed"))
@@ -1013,7 +1049,8 @@ def check_c18(tier, seed):
                    "with W empty there is one equivalence class per combination and one execution decides it; states = thread combinations explored, transitions = executions run under the scheduler. "
                    "Positive control (harness-owned lost update, needs one preemption) must be found in every run. Free-running ThreadSanitizer pass over the same bodies on real threads." % (3 if tier == "thorough" else 2),
            "samples": merged.samples, "notes": merged.notes, "executions_per_variant": per, "conflict_granules": int(wtot), "scheduling_points": int(points),
-           "tsan_pass": tsan, "builds": [lib.describe()]}
+           "tsan_pass": tsan, "builds": [lib.describe(), ship.describe()],
+           "section_audit": {"sections_seen": nsec, "objects_with_writable_static_data": sorted(secs), "rule": "objdump -h of every object of libskinny.a as built by src/Makefile: .data*, .bss*, .tdata*, .tbss* must be empty (.data.rel.ro* excepted), no common symbols"}}
     if tsan.get("reports", 0) > 0:
         vv = {"sig": "C18/tsan-data-race", "case": "", "detail": tsan.get("first_report", "")[:1500], "label": "tsan", "replay": None}
         v.new.append(vv)
